@@ -1252,10 +1252,124 @@ def r7_link(program, rep):
     rep.floor("C02-R7", 12)
 
 
+def r2_kernel_lookups(program, rep):
+    """The Python kernel's lookups are total: l2v has an entry for every
+    chip of the machine and v2n one for every vertex, so that _step /
+    _vertex_net_cost can index them with any vertex or chip they come by (a
+    vertex that is in no net - every net it was in was filtered out - still
+    gets moved and displaced).  A table filled only from the nets has no
+    entry for such a vertex: KeyError, not a placement error."""
+    pk = PL + ".sa.python_kernel"
+    init = program.get(pk + ":PythonKernel.__init__")
+    inst = qual(init)
+    I = Terms(init)
+    ps = formals(init)
+    for attr, dom, what in (("self.v2n", ("param", ps[1]), "vertex"),
+                            ("self.l2v", ("param", "machine"), "chip")):
+        bs = [b_ for b_ in I.binds if b_.var == attr]
+        if len(bs) != 1:
+            raise AnalysisError("PythonKernel.__init__: %s is bound %d "
+                                "times" % (attr, len(bs)))
+        t = I._bind_term(bs[0])
+        built = I.built_map(t)
+        doms = [it for it, k, v, c in (built or [])
+                if c is None and plain(k) == ("elem", plain(it))]
+        ok = any(plain(d) in (dom, ("attr", ("param", "self"), dom[1]))
+                 for d in doms)
+        if not ok:
+            # filled entry by entry from some other collection?
+            other = [plain(args[0]) for n_, c_, recv, args in method_calls(
+                I, ["setdefault"]) if recv == t and args]
+            other += [plain(k) for n_, st, base, k, v in stores(I)
+                      if base == t]
+            partial = [k for k in other if any(
+                st == ("param", "nets") for st in subterms(k))]
+            if not partial:
+                raise AnalysisError("PythonKernel.__init__: how %s is "
+                                    "populated is not read" % attr)
+        rep.check(ok, "C02-R2", inst, "%s has an entry for every %s" % (
+            attr, what), construct="%s total" % attr, node=bs[0].node.ast,
+            fail="%s only has entries for the vertices that are members of "
+                 "a net: a vertex that is in none (all its nets were "
+                 "filtered out as trivial) has no entry, and moving or "
+                 "displacing it raises KeyError" % attr)
+
+
+def r2_steps(program, rep):
+    """The annealer makes at least one swap attempt per temperature: the
+    acceptance rate divides by the number of attempts, and the kernel
+    divides by the number of cost changes it collected (one per attempt)."""
+    from ..terms import eval_closed, subst_params, reify
+    fn = program.get(PLACERS["sa"])
+    inst = qual(fn)
+    T = Terms(fn)
+    divs = [n for n in ast.walk(fn) if isinstance(n, ast.BinOp) and
+            isinstance(n.op, (ast.Div, ast.FloorDiv, ast.Mod)) and any(
+                isinstance(x, ast.Name) and x.id == "num_steps"
+                for x in ast.walk(n.right))]
+    if not divs:
+        raise AnalysisError("sa.place: no division by the number of steps")
+    n_ = T.cfg.node_containing(divs[0])
+    t = plain(T.term(ast.Name(id="num_steps", ctx=ast.Load()), n_))
+    if any(st[0] in ("mu", "phi", "rec", "opaque") for st in subterms(t)):
+        raise AnalysisError("sa.place: the number of steps is a merged "
+                            "value; not analysed")
+    # max(1, ...) / max(..., 1) at the top: at least one
+    if t[0] == "call" and t[1] == ("global", "max") and any(
+            x[0] == "const" and isinstance(x[1], int) and x[1] >= 1
+            for x in t[2]):
+        rep.ok("C02-R2", inst, "num_steps = max(1, ...): at least one swap "
+               "attempt per temperature", divs[0])
+        return
+    # otherwise: fold it for small efforts and netlists
+    lens = sorted(set(st for st in subterms(t) if st[0] == "call" and
+                      st[1] == ("global", "len")), key=repr)
+    eff = formals(fn)[4] if "effort" not in formals(fn) else "effort"
+    witness = None
+    decided = True
+    for e_ in (0.001, 0.01, 0.1, 1.0):
+        for n_v in (1, 2, 10):
+            x = t
+            for L_ in lens:
+                x = _replace_term(x, L_, ("const", n_v))
+            x = subst_params(x, {eff: ("const", e_)})
+            try:
+                v = eval_closed(x)
+            except AnalysisError:
+                decided = False
+                continue
+            if not v:
+                witness = (e_, n_v, v)
+    if witness is None and not decided:
+        raise AnalysisError("sa.place: the number of steps does not fold")
+    if witness is None:
+        raise AnalysisError("sa.place: the number of steps is not max(1, "
+                            "...) and no small case makes it zero; not "
+                            "decided")
+    rep.check(False, "C02-R2", inst, "at least one swap attempt per "
+              "temperature", construct="num_steps >= 1", node=divs[0],
+              fail="with effort = %r and %d vertices the number of swap "
+                   "attempts per temperature is %r: the acceptance rate "
+                   "num_accepted / num_steps (and the kernel's mean over "
+                   "the cost changes) divides by zero - ZeroDivisionError, "
+                   "not a placement error" % witness)
+
+
+def _replace_term(t, old, new):
+    if t == old:
+        return new
+    if not isinstance(t, tuple) or not t or t[0] == "const":
+        return t
+    return tuple(_replace_term(x, old, new) if isinstance(x, tuple) else x
+                 for x in t)
+
+
 def check(program, rep):
     rep.guard("C02-R1", r1_commits, program, rep)
     rep.guard("C02-R1", r1_chip_order, program, rep)
     rep.guard("C02-R2", r2_kernel, program, rep)
+    rep.guard("C02-R2", r2_kernel_lookups, program, rep)
+    rep.guard("C02-R2", r2_steps, program, rep)
     rep.guard("C02-R3", r3_dispatch, program, rep)
     rep.guard("C02-R4", r4_pairing, program, rep)
     rep.guard("C02-R5", r5_reservations, program, rep)
